@@ -310,7 +310,11 @@ class StdFunction(Plugin):
         return None
 
     def free_call(self, unit, name, rd, args, n):
-        if name == 'CatchThrow' and args and self.node_sig(args[0]):
+        def _is_lambda(x):
+            x = unit.strip_tmp(x)
+            while x['kind'] in ('ImplicitCastExpr', 'CXXConstructExpr', 'MaterializeTemporaryExpr', 'CXXBindTemporaryExpr', 'CXXFunctionalCastExpr') and unit.kids(x): x = unit.strip_tmp(unit.kids(x)[0])
+            return x['kind'] == 'LambdaExpr'
+        if name == 'CatchThrow' and args and self.node_sig(args[0]) and not _is_lambda(args[0]):
             # tbox::CatchThrow(func, ...): invokes func and swallows whatever it throws
             sig = self.node_sig(args[0]); unit.count_call(self.stub_name(sig))
             return '(%s(%s), (_Bool)0)' % (self.stub_name(sig), unit.addr_of(args[0]))
